@@ -354,6 +354,26 @@ def run_project_case(case: dict) -> dict:
             env = dict(os.environ, GIT_CONFIG_GLOBAL="/dev/null", GIT_CONFIG_SYSTEM="/dev/null", HOME=str(d))
             subprocess.run(["git", "init", "-q"], cwd=root, env=env, check=True, capture_output=True)
             subprocess.run(["git", "add", "-A"], cwd=root, env=env, check=True, capture_output=True)
+        if case.get("under"):
+            # the whole abstract project sits below a Meson subproject directory of a larger tree, and lint is told to include
+            # subprojects: paths and sources are reported with that prefix, everything else is as for the project alone
+            pre = case["under"].strip("/") + "/"
+            outer = d / "outer"
+            (outer / pre).parent.mkdir(parents=True)
+            shutil.move(str(root), str(outer / pre.rstrip("/")))
+            obs = lint_obs(outer, args=["--root", str(outer), "--no-multiprocessing", "--include-meson-subprojects"])
+            def strip(x):
+                return x[len(pre):] if isinstance(x, str) and x.startswith(pre) else x
+            for f_ in obs["files"]:
+                f_["path"] = strip(f_["path"])
+                for it in f_["items"]:
+                    it["src"] = strip(it["src"])
+            for key in ("missing", "bad"):
+                for en in obs[key]:
+                    en["paths"] = sorted(strip(x) for x in en["paths"])
+            for key in ("nocop", "nolic", "readerr"):
+                obs[key] = sorted(strip(x) for x in obs[key])
+            return {"tid": case["tid"], "p": p, "checks": case["checks"], "label": case.get("label", ""), "obs": obs}
         if case.get("locale_c") and not m["faults"]:
             # the same project linted by an interpreter whose locale is not UTF-8; every REUSE.toml carries a non-ASCII comment
             for t in root.rglob("REUSE.toml"):
